@@ -81,6 +81,7 @@ type gScript struct {
 	IPs          []string // canonical
 	Blacklist    []int
 	BlacklistStr []string // the spellings passed at construction
+	SweepMs      int      // sweep interval of the gater (0 = 50 ms)
 	Steps        []gIn
 }
 
@@ -134,6 +135,7 @@ type gRec struct {
 	IPs          []string      `json:"ips"`
 	Blacklist    []int         `json:"blacklist"`
 	BlacklistStr []string      `json:"blacklist_str"`
+	SweepMs      int           `json:"sweep_ms"` // sweep interval; >= 1000: "slow sweep" script (expired bans stay visible until the tick)
 	Steps        []interface{} `json:"steps"`
 	Unstable     bool          `json:"unstable,omitempty"` // a mutation straddled a wall-clock second (should never happen)
 	Panic        string        `json:"panic,omitempty"`
@@ -187,7 +189,10 @@ func idxList(ips []string, ss []string) []int {
 
 func runGater(sc gScript) (rec gRec) {
 	rec = gRec{K: "gater", ID: sc.ID, Exp: int64((1 * time.Second).Seconds()), IPs: sc.IPs, Blacklist: sc.Blacklist,
-		BlacklistStr: sc.BlacklistStr, Steps: []interface{}{}}
+		BlacklistStr: sc.BlacklistStr, SweepMs: sc.SweepMs, Steps: []interface{}{}}
+	if rec.SweepMs <= 0 {
+		rec.SweepMs = 50
+	}
 	if rec.Blacklist == nil {
 		rec.Blacklist = []int{}
 	}
@@ -200,7 +205,7 @@ func runGater(sc gScript) (rec gRec) {
 			rec.Panic = panicText(site, r)
 		}
 	}()
-	g, err := p2p.VerifC18NewGater(1*time.Second, 50*time.Millisecond, sc.BlacklistStr)
+	g, err := p2p.VerifC18NewGater(1*time.Second, time.Duration(rec.SweepMs)*time.Millisecond, sc.BlacklistStr)
 	if err != nil {
 		rec.Err = err.Error()
 		return rec
@@ -311,12 +316,13 @@ func parseGater(line []byte) gScript {
 		IPs          []string `json:"ips"`
 		Blacklist    []int    `json:"blacklist"`
 		BlacklistStr []string `json:"blacklist_str"`
+		SweepMs      int      `json:"sweep_ms"`
 		Steps        []gIn    `json:"steps"`
 	}
 	if err := json.Unmarshal(line, &raw); err != nil {
 		panic(err)
 	}
-	sc := gScript{ID: raw.ID, IPs: raw.IPs, Blacklist: raw.Blacklist, BlacklistStr: raw.BlacklistStr}
+	sc := gScript{ID: raw.ID, IPs: raw.IPs, Blacklist: raw.Blacklist, BlacklistStr: raw.BlacklistStr, SweepMs: raw.SweepMs}
 	if len(sc.BlacklistStr) != len(sc.Blacklist) {
 		sc.BlacklistStr = nil
 		for _, i := range sc.Blacklist {
@@ -443,7 +449,26 @@ func genGater(r *hx.Rng, id int) gScript {
 		sc.BlacklistStr = append(sc.BlacklistStr, b.spell(i))
 	}
 
+	if id%8 == 7 {
+		// slow sweep (every 4 s, ban 1 s): the time between the expiry of a ban and the sweep is observable. After expiry - before
+		// and after the tick - acceptance is observed, a small penalty is applied and the score must be clean once accepted.
+		plan = 99
+		sc.SweepMs = 4000
+		b.pen(f, 60)
+		b.pen(f, 40)
+		b.pen(o, 100)
+		b.wait(1)
+		b.wait(1)
+		b.pen(f, b.oneOf(5, 10))
+		b.wait(1)
+		b.wait(1)
+		b.wait(1)
+		b.pen(o, b.oneOf(5, 10, 25))
+		b.pen(f, 5)
+		b.wait(1)
+	}
 	switch plan {
+	case 99:
 	case 0: // accumulate across 100, expire, clean score; ban + penalty on banned
 		b.pen(f, b.oneOf(40, 50))
 		b.pen(f, b.oneOf(25, 40))
@@ -537,7 +562,7 @@ func genGater(r *hx.Rng, id int) gScript {
 		}
 	}
 	// noise: a few extra steps at random positions, then pad the tail to at least 6 ticks
-	for k := r.Intn(3); k > 0 && len(b.steps) < 14; k-- {
+	for k := r.Intn(3); k > 0 && len(b.steps) < 14 && plan != 99; k-- {
 		var st gIn
 		switch r.Intn(4) {
 		case 0:
